@@ -967,6 +967,40 @@ pub fn run() {
     });
     c.extra("annealer_grid", json!({"points": gs, "repetitions_per_point": reps, "iterations": G_ITER, "init_temp": G_T0, "min_temp": G_TMIN, "cooling_rate": G_COOL, "adaptive_cooling": [true, false]}));
 
+    // ---- annealer: wider graphs, few iterations, hot start ----
+    // With only a handful of iterations and a high temperature most moves are kept, so the
+    // bookkeeping of the best tree (as opposed to the current one) decides the result; on
+    // 16-30 vertices width and score (sum of squared ranks) often move in opposite
+    // directions, which is what a slip in that bookkeeping needs in order to show.
+    let n_wide = t.pick(2500usize, 60_000usize);
+    par_cases("annealer-wide-short", n_wide, move |r, i| {
+        let iterations = *r.pick(&[3usize, 5, 10, 15, 25, 40]);
+        let p = AnnealParams {
+            iterations,
+            init_temp: *r.pick(&[5.0, 20.0, 100.0]),
+            min_temp: 0.01,
+            cooling: *r.pick(&[0.95, 0.99]),
+            adaptive: r.chance(0.5),
+            ctor_new: r.chance(0.5),
+            defaults: false,
+        };
+        let mut gd = gen_graph(r, 30);
+        if gd.n < 12 {
+            gd = gen_graph(r, 30);
+        }
+        gd.backend = if gd.backend == 1 { 1 } else { r.below(3) };
+        if gd.backend != 1 {
+            gd.slots = (0..gd.n).collect();
+            gd.total_slots = gd.n;
+        }
+        let (k, s, s2) = (r.below(3), pick_seed(r), pick_seed(r));
+        if gd.backend == 2 {
+            run_annealer::<quizx::hash_graph::Graph>("annealer-wide-short", i, &gd, p, k, s, s2)
+        } else {
+            run_annealer::<quizx::vec_graph::Graph>("annealer-wide-short", i, &gd, p, k, s, s2)
+        }
+    });
+
     // ---- the public wrapper rank_decomp (thread-local generator) ----
     let n_wrap = t.pick(80usize, 1_000usize);
     par_cases("rank_decomp-wrapper", n_wrap, move |r, i| {
